@@ -45,7 +45,7 @@ def admitCheck (env : Env) (cfg : Cfg) (n : Node) (tx : Tx) : Except String Unit
               | .ok _ => .ok ()
 
 /-- `AddTransaction` (pool effect only) -/
-def admit (env : Env) (cfg : Cfg) (n : Node) (tx : Tx) : Node :=
+def admitTx (env : Env) (cfg : Cfg) (n : Node) (tx : Tx) : Node :=
   match admitCheck env cfg n tx with
   | .ok () => { n with pool := n.pool ++ [tx] }
   | .error _ => n
